@@ -238,3 +238,18 @@ func H17f_Deep_TwoRequestsOneIndex() {
 			vp.UFBytes("SHA384_extend", 48, vp.UFBytes("SHA384_extend", 48, zero, d1), d2)))
 	}
 }
+
+// thorough tier: deep mode with every digest length 0..64
+func T17g_Deep_ExtendDigest_AllLengths() {
+	idx := deepIndices[vp.Choose("index", len(deepIndices))]
+	t, own := deepWorld(idx)
+	digest := vp.Bytes("digest", vp.IntRange("digest_len", 0, 64))
+	before := make([]byte, 48)
+	if own != nil {
+		before = own.reg
+	}
+	err := ExtendDigestClient(t, idx, digest)
+	valid := idx >= 0 && idx <= 3 && len(digest) == 48
+	vp.Reach("valid-request-accepted", valid && err == nil)
+	checkDeep(t, own, idx, digest, valid, err, before)
+}
